@@ -111,6 +111,8 @@ impl AuthorityLockGuard {
                 )
             })?;
 
+        #[cfg(rip_verif)]
+        rip_kernel::verif::point("auth.acquire.created", || serde_json::json!({}));
         let record = AuthorityLockRecord {
             pid: std::process::id(),
             started_at_ms: now_ms(),
@@ -122,6 +124,8 @@ impl AuthorityLockGuard {
             .and_then(|()| file.write_all(b"\n"))
             .map_err(|err| format!("write lock record failed: {err}"))?;
         let _ = file.flush();
+        #[cfg(rip_verif)]
+        rip_kernel::verif::point("auth.acquire.written", || serde_json::json!({}));
 
         Ok(Self {
             lock_path,
@@ -143,15 +147,25 @@ impl AuthorityLockGuard {
         };
         let payload =
             serde_json::to_vec(&meta).map_err(|err| format!("meta json failed: {err}"))?;
-        atomic_write_file(&self.meta_path, &payload)
-            .map_err(|err| format!("write meta failed: {err}"))
+        let result = atomic_write_file(&self.meta_path, &payload)
+            .map_err(|err| format!("write meta failed: {err}"));
+        #[cfg(rip_verif)]
+        rip_kernel::verif::point("auth.meta.written", || serde_json::json!({}));
+        result
     }
 }
 
 impl Drop for AuthorityLockGuard {
     fn drop(&mut self) {
+        #[cfg(rip_verif)]
+        rip_kernel::verif::point("auth.drop.enter", || serde_json::json!({}));
         let _ = fs::remove_file(&self.meta_path);
+        #[cfg(rip_verif)]
+        rip_kernel::verif::point("auth.drop.meta", || serde_json::json!({}));
         let _ = fs::remove_file(&self.lock_path);
+        #[cfg(rip_verif)]
+        rip_kernel::verif::point("auth.drop.lock", || serde_json::json!({}));
+
     }
 }
 
@@ -202,6 +216,8 @@ pub fn try_cleanup_stale_authority_files(
     if lock.pid != expected_pid {
         return Ok(false);
     }
+    #[cfg(rip_verif)]
+    rip_kernel::verif::point("auth.stale.checked", || serde_json::json!({}));
 
     let lock_tombstone = lock_path.with_file_name(format!(
         "{}.stale-{}-{}-{}",
@@ -216,6 +232,8 @@ pub fn try_cleanup_stale_authority_files(
         Err(err) if err.kind() == std::io::ErrorKind::NotFound => return Ok(false),
         Err(err) => return Err(format!("rename stale lock failed: {err}")),
     }
+    #[cfg(rip_verif)]
+    rip_kernel::verif::point("auth.stale.renamed", || serde_json::json!({}));
 
     if let Ok(Some(meta)) = read_authority_meta(&data_dir) {
         if meta.pid == expected_pid {
@@ -232,6 +250,8 @@ pub fn try_cleanup_stale_authority_files(
         }
     }
 
+    #[cfg(rip_verif)]
+    rip_kernel::verif::point("auth.stale.meta", || serde_json::json!({}));
     let _ = fs::remove_file(lock_tombstone);
     Ok(true)
 }
@@ -245,6 +265,8 @@ pub fn try_cleanup_corrupt_lock_file(data_dir: impl AsRef<Path>) -> Result<bool,
     if authority_meta_path(&data_dir).exists() {
         return Ok(false);
     }
+    #[cfg(rip_verif)]
+    rip_kernel::verif::point("auth.corrupt.checked", || serde_json::json!({}));
 
     let tombstone = lock_path.with_file_name(format!(
         "{}.corrupt-{}-{}",
@@ -257,6 +279,8 @@ pub fn try_cleanup_corrupt_lock_file(data_dir: impl AsRef<Path>) -> Result<bool,
         Err(err) if err.kind() == std::io::ErrorKind::NotFound => return Ok(false),
         Err(err) => return Err(format!("rename corrupt lock failed: {err}")),
     }
+    #[cfg(rip_verif)]
+    rip_kernel::verif::point("auth.corrupt.renamed", || serde_json::json!({}));
 
     let _ = fs::remove_file(tombstone);
     Ok(true)
